@@ -212,7 +212,8 @@ def check(run, F, tier):
         if not m:
             continue
         ver, kind = m.group(1), m.group(2)
-        ex = explore.Explorer(F, inline_pred=lambda ex, callee, info: callee.get("kind") == "Closure")
+        ex = explore.Explorer(F, inline_pred=lambda ex, callee, info: callee.get("kind") == "Closure" or (
+            callee.get("kind") == "Fn" and not callee.get("pub") and callee["path"].startswith("mqtt::packet::") and len(callee["blocks"]) <= 14))
         ps = ex.run(f["path"])
         zero_rejected = True
         nok = 0
@@ -231,7 +232,7 @@ def check(run, F, tier):
             # a zero test on the id bytes decided false on this path: Iterator::all(.., |b| b == 0) == false, or is_zero() == false
             okz = False
             for e in p.effects:
-                if e[0] == "call" and (e[1].endswith("Iterator>::all") or e[1].endswith("::is_zero")):
+                if e[0] == "call" and (e[1].endswith("Iterator>::all") or re.search(r"::is_(all_)?zero\w*$", e[1])):
                     if conn.truth(p, e) is False:
                         okz = True
             if not okz:
